@@ -25,6 +25,8 @@ CLASSES = {
     "partially-tagged": (PART_TAGGED, []),
     "partially-annotated": (K_PART[:3], []),
     "tagdict-only": (K_TOK[:2], [{"fmt": "tok", "s": cps("a/A あ/B/Y b/M")}]),
+    "tagged-fixed-then-varying": ([{"fmt": "tok", "s": cps(x)} for x in ["a/A/X あ/B", "a/A/Y あ/B/K", "1/N a/A/X", "あ/B/K/M a/A/Y/P", "あ/B/K/L 1"]], []),
+    "tagged-many-classes": ([{"fmt": "tok", "s": cps(x)} for x in ["a/A あ/B", "a/C あ/D", "a/E あ/F", "a/G a/H a/I", "a/J a/K a/L 1"]], []),
     "one-char-sentences": ([{"fmt": "tok", "s": cps("a")}, {"fmt": "tok", "s": cps("あ")}], []),
 }
 
